@@ -49,6 +49,9 @@ type Ctx struct {
 	graph   *Graph
 	loud    *LoudModel
 	cmds    *CommandModel
+	rxTable *RxTable
+	factCache map[*ssa.Function]map[*ssa.BasicBlock]condFacts
+	smCache   []*submatchSite
 
 	Exemptions map[string]string // obligation key -> reason (from exemptions.json)
 
